@@ -8,27 +8,29 @@ Import ListNotations.
 Record darr := mk_da { d_blk : nat; d_cells : buf; d_size : nat }.
 Definition da_default : darr := mk_da 0 [] 0.          (* dyn_array() / dyn_array(Allocator) *)
 
-Record dst := mk_dst { dregs : nat -> darr; dnextb : nat }.
-Definition dst0 : dst := mk_dst (fun _ => da_default) 1.
+Record dst := mk_dst { dregs : nat -> darr; dals : nat -> nat; dnextb : nat }.
+Definition dst0 : dst := mk_dst (fun _ => da_default) (fun r => Nat.min r (NINST - 1)) 1.
 
 Section WithElemSize.
 Variable esz : N.
 
 (* dyn_array(size_t size, Allocator) : allocate, then new (&elements_[i]) T{} *)
-Definition da_sized (nb n : nat) : res (darr * nat * list ev) :=
-  bind (fill_loop n 0 (heap_nm nb) (repeat None n) 0%N) (fun '(c, e) =>
-  Ok (mk_da nb c n, S nb, EAlloc nb (esz * N.of_nat n) :: e)).
+Definition da_sized (al nb n : nat) : res (darr * nat * list ev) :=
+  let nblk := enc al nb in
+  bind (fill_loop n 0 (heap_nm nblk) (repeat None n) 0%N) (fun '(c, e) =>
+  Ok (mk_da nblk c n, S nb, EAlloc nblk (esz * N.of_nat n) :: e)).
 
 (* dyn_array(const dyn_array &other) *)
-Definition da_copy_ctor (nb : nat) (o : darr) : res (darr * nat * list ev) :=
-  bind (xfer_loop (d_size o) 0 (heap_nm (d_blk o)) (heap_nm nb) (d_cells o) (repeat None (d_size o))) (fun '(c, e) =>
-  Ok (mk_da nb c (d_size o), S nb, EAlloc nb (esz * N.of_nat (d_size o)) :: e)).
+Definition da_copy_ctor (al nb : nat) (o : darr) : res (darr * nat * list ev) :=
+  let nblk := enc al nb in
+  bind (xfer_loop (d_size o) 0 (heap_nm (d_blk o)) (heap_nm nblk) (d_cells o) (repeat None (d_size o))) (fun '(c, e) =>
+  Ok (mk_da nblk c (d_size o), S nb, EAlloc nblk (esz * N.of_nat (d_size o)) :: e)).
 
 (* ~dyn_array(): deallocate(elements_, sizeof(T) * size_); a null pointer is handed to the
    allocator with size 0, which is not an event *)
-Definition da_destruct (d : darr) : res (list ev) :=
+Definition da_destruct (al : nat) (d : darr) : res (list ev) :=
   bind (destroy_loop (d_size d) 0 (heap_nm (d_blk d)) (d_cells d)) (fun '(_, e) =>
-  Ok (e ++ (if Nat.eqb (d_blk d) 0 then [] else [EDealloc (d_blk d) (esz * N.of_nat (d_size d))]))).
+  Ok (e ++ (if Nat.eqb (d_blk d) 0 then [] else [EDealloc (reenc al (d_blk d)) (esz * N.of_nat (d_size d))]))).
 
 Definition da_size (d : darr) : nat := d_size d.
 (* dyn_array.hpp:71-73  bool empty() const { return size_ == 0; } *)
@@ -50,40 +52,43 @@ Inductive dop :=
 | DCopyCtor (r s : nat) | DMoveCtor (r s : nat)
 | DSwap (r s : nat).
 
+(* DMake/DDefault re-construct the variable on the allocator instance it held before; copy and move construction
+   start from the source's allocator, swap() exchanges allocator_. *)
 Definition dstep (st : dst) (o : dop) : res (dst * out * list ev) :=
   let rg := dregs st in
+  let al := dals st in
   match o with
   | DMake r n =>
-    bind (da_destruct (rg r)) (fun e1 =>
-    bind (da_sized (dnextb st) n) (fun '(d, nb, e2) =>
-    Ok (mk_dst (set_reg rg r d) nb, OUnit, e1 ++ e2)))
+    bind (da_destruct (al r) (rg r)) (fun e1 =>
+    bind (da_sized (al r) (dnextb st) n) (fun '(d, nb, e2) =>
+    Ok (mk_dst (set_reg rg r d) al nb, OUnit, e1 ++ e2)))
   | DDefault r =>
-    bind (da_destruct (rg r)) (fun e1 => Ok (mk_dst (set_reg rg r da_default) (dnextb st), OUnit, e1))
+    bind (da_destruct (al r) (rg r)) (fun e1 => Ok (mk_dst (set_reg rg r da_default) al (dnextb st), OUnit, e1))
   | DSet r i x =>
-    bind (da_set (rg r) i x) (fun '(d, e) => Ok (mk_dst (set_reg rg r d) (dnextb st), OUnit, e))
+    bind (da_set (rg r) i x) (fun '(d, e) => Ok (mk_dst (set_reg rg r d) al (dnextb st), OUnit, e))
   | DIndex r i => bind (da_index (rg r) i) (fun x => Ok (st, OVal x, []))
   | DEmpty r => Ok (st, OBool (da_empty (rg r)), [])
   | DAssign r s =>
-    bind (da_copy_ctor (dnextb st) (rg s)) (fun '(other, nb, e1) =>
-    bind (da_destruct (rg r)) (fun e2 =>
-    Ok (mk_dst (set_reg rg r other) nb, OUnit, e1 ++ e2)))
+    bind (da_copy_ctor (al s) (dnextb st) (rg s)) (fun '(other, nb, e1) =>
+    bind (da_destruct (al r) (rg r)) (fun e2 =>
+    Ok (mk_dst (set_reg rg r other) (set_reg al r (al s)) nb, OUnit, e1 ++ e2)))
   | DMoveAssign r s =>
     let other := rg s in
     let rg1 := set_reg rg s da_default in
     let mine := rg1 r in
-    bind (da_destruct mine) (fun e =>
-    Ok (mk_dst (set_reg rg1 r other) (dnextb st), OUnit, e))
+    bind (da_destruct (al r) mine) (fun e =>
+    Ok (mk_dst (set_reg rg1 r other) (set_reg al r (al s)) (dnextb st), OUnit, e))
   | DCopyCtor r s =>
     if Nat.eqb r s then Ok (st, OUnit, []) else
-    bind (da_destruct (rg r)) (fun e1 =>
-    bind (da_copy_ctor (dnextb st) (rg s)) (fun '(d, nb, e2) =>
-    Ok (mk_dst (set_reg rg r d) nb, OUnit, e1 ++ e2)))
+    bind (da_destruct (al r) (rg r)) (fun e1 =>
+    bind (da_copy_ctor (al s) (dnextb st) (rg s)) (fun '(d, nb, e2) =>
+    Ok (mk_dst (set_reg rg r d) (set_reg al r (al s)) nb, OUnit, e1 ++ e2)))
   | DMoveCtor r s =>
     if Nat.eqb r s then Ok (st, OUnit, []) else
-    bind (da_destruct (rg r)) (fun e1 =>
-    Ok (mk_dst (set_reg (set_reg rg r (rg s)) s da_default) (dnextb st), OUnit, e1))
+    bind (da_destruct (al r) (rg r)) (fun e1 =>
+    Ok (mk_dst (set_reg (set_reg rg r (rg s)) s da_default) (set_reg al r (al s)) (dnextb st), OUnit, e1))
   | DSwap r s =>
-    Ok (mk_dst (set_reg (set_reg rg r (rg s)) s (rg r)) (dnextb st), OUnit, [])
+    Ok (mk_dst (set_reg (set_reg rg r (rg s)) s (rg r)) (set_reg (set_reg al r (al s)) s (al r)) (dnextb st), OUnit, [])
   end.
 
 Fixpoint drun (st : dst) (ops : list dop) : res (dst * list out * list ev) :=
@@ -94,11 +99,11 @@ Fixpoint drun (st : dst) (ops : list dop) : res (dst * list out * list ev) :=
     bind (drun st1 r) (fun '(st2, xs, e2) => Ok (st2, x :: xs, e1 ++ e2)))
   end.
 
-Fixpoint da_destruct_regs (rg : nat -> darr) (k n : nat) : res (list ev) :=
+Fixpoint da_destruct_regs (rg : nat -> darr) (al : nat -> nat) (k n : nat) : res (list ev) :=
   match n with
   | O => Ok []
-  | S m => bind (da_destruct (rg k)) (fun e1 => bind (da_destruct_regs rg (S k) m) (fun e2 => Ok (e1 ++ e2)))
+  | S m => bind (da_destruct (al k) (rg k)) (fun e1 => bind (da_destruct_regs rg al (S k) m) (fun e2 => Ok (e1 ++ e2)))
   end.
-Definition dfinish (st : dst) : res (list ev) := da_destruct_regs (dregs st) 0 nregs.
+Definition dfinish (st : dst) : res (list ev) := da_destruct_regs (dregs st) (dals st) 0 nregs.
 
 End WithElemSize.
